@@ -1,18 +1,14 @@
-"""K write_anylen: write_str step contract with symbolic-size buffers (every capacity/length/chunk length up to 2^40)."""
+"""K write_anylen: write_str step contract with symbolic-size buffers (every capacity/length/chunk length up to 2^40).
+(Symbolic-size variants of the fixed-size and Rust-owned writer harnesses were tried and dropped: Kani 0.68 non-deterministically
+dropped the tail of those harnesses - detected by the end-of-harness cover guard - so they stay bounded in unit write_more.)"""
 from kunit import define
 F = "runtime/src/write.rs"
 E = [("check_write_str_anylen", "write_str step contract (Ok always; sticky failure changes nothing; refused growth leaves len/cap/buf/content unchanged; success appends exactly the chunk and preserves the prefix; len<=cap; all accesses inside the allocations) for EVERY cap/len/chunk length <= 2^40: loop-free harness, content compared at one symbolic index",
       [(F, "impl fmt::Write for DiplomatWrite::write_str")], 3, ["C12", "C15"], "complete", "cap, chunk length <= 2^40 bytes (CBMC allocator model); foreign grow = documented-invariant model")]
-E += [
-    ("simple_write_anylen", "fixed-size writer for EVERY caller buffer size n >= 1: one arbitrary chunk + flush leave exactly the chunk if it fits and nothing (failed) otherwise, NUL inside the n-byte buffer right after the content, flush idempotent, accessors null/0 iff failed",
-     [(F, "diplomat_simple_write"), (F, "fn diplomat_simple_write::grow"), (F, "fn diplomat_simple_write::flush"), (F, "impl DiplomatWrite::flush"), (F, "impl fmt::Write for DiplomatWrite::write_str"), (F, "diplomat_buffer_write_get_bytes"), (F, "diplomat_buffer_write_len")], 3, ["C12"], "complete", "buffer size and chunk lengths <= 2^40"),
-    ("buffer_write_anylen", "Rust-owned writer for EVERY initial capacity: starting from any fill level with arbitrary old content, one arbitrary chunk is appended (grow never fails, old content preserved across realloc), len/get_bytes exact, destroy frees box and buffer once",
-     [(F, "diplomat_buffer_write_create"), (F, "fn diplomat_buffer_write_create::grow"), (F, "fn diplomat_buffer_write_create::flush"), (F, "diplomat_buffer_write_destroy")], 3, ["C12", "C03"], "complete", "capacity and chunk lengths <= 2^40"),
-]
 define(globals(), "write_anylen", "runtime", F, "verif_write_anylen", "write_anylen.rs",
-       {"C12": "one write step, the fixed-size writer and the Rust-owned writer for every buffer size", "C03": "Rust-owned writer freed exactly once", "C15": "write_str panic freedom (debug_assert) for every size"},
+       {"C12": "one write step for every buffer size", "C15": "write_str panic freedom (debug_assert) for every size"},
        E, lambda tier: {},
        ["foreign grow() obeys the documented DiplomatWrite safety invariant (modelled nondeterministically, slack 0..2)",
         "buffers are zero-initialised symbolic-size allocations with one symbolic byte written at a symbolic index (so every position is covered)",
         "CBMC allocator model; len + chunk length cannot overflow usize within the 2^40 bound"],
-       {"C12": [], "C15": [], "C03": []})
+       {"C12": [], "C15": []})
